@@ -19,6 +19,12 @@
      after the k messages the reader returns EOF
      res = 0 nil | 1 read error | 2 "msg too small";  consumed = complete messages read
 
+   kind 3 — option wiring (conformance only: says nothing about the property by itself)
+     3 rpm perPeerRPM dialDataRPM maxConc allowPrivate 1   RPM PerPeerRPM DialDataRPM MaxConc allowPrivate policy
+     left: what the user passed to New(WithServerRateLimit(...), [AllowPrivateAddrs]);
+     right: what the constructed server's limiter / server hold; policy = 1 iff the data-request
+     policy in force asks for data exactly when the IPs differ (on two sample pairs)
+
    kind 2 — server session (serveDialRequest on scripted streams, recording dialer)
      2 RPM PerPeerRPM DialDataRPM MaxConc  step*
      step = stimulus nev event^nev npeers inprog_0 .. inprog_{npeers-1}
@@ -522,6 +528,9 @@ Definition conform_case (l : list Z) : list Z :=
           else [ERR_MALFORMED; 2]
       | None => [ERR_MALFORMED; 3]
       end
+  | [3; a1; a2; a3; a4; a5; a6; b1; b2; b3; b4; b5; b6] =>
+      if zlist_eqb [a1; a2; a3; a4; a5; a6] [b1; b2; b3; b4; b5; b6] then []
+      else [ERR_MISMATCH; 0; a1; a2; a3; a4; a5; a6; b1; b2; b3; b4; b5; b6]
   | _ => [ERR_MALFORMED; 9]
   end.
 
@@ -543,5 +552,6 @@ Definition monitor_case (l : list Z) : list Z :=
       | Some tr => holds_session (cfg_of a b c d) (map fst tr)
       | None => [ERR_MALFORMED; 3]
       end
+  | 3 :: _ => []
   | _ => [ERR_MALFORMED; 9]
   end.
